@@ -674,6 +674,15 @@ func (e *Env) call(n *SCall) *Val {
 		}
 		qn := fmt.Sprintf("q_un_%d", e.depth)
 		return &Val{T: tBool, S: fmt.Sprintf("(forall ((%s Int)) (! (=> (and (<= 0 %s) (< %s %s)) (= (select %s %s) (select %s %s))) :pattern ((select %s %s))))", qn, qn, qn, e.old.alloc, h1, qn, h0, qn, h1, qn)}
+	case "text":
+		// text(b): the string made of the bytes of b (Go's string(b))
+		if !need(1) {
+			return e.fail("")
+		}
+		b := arg(0)
+		_, h := vc.heap(e.st, byteT)
+		vc.u.declareUninterp("bytes2str", []string{"(Array Int Int)", "Slice"}, "String")
+		return &Val{T: tString, S: "(bytes2str " + h + " " + b.S + ")"}
 	case "zero":
 		tl, ok := n.Args[0].(*STypeLit)
 		if !ok {
